@@ -412,6 +412,8 @@ class Generator:
         for c in ("x", "y", "u", "k", "id", "g"):
             for t in names[:5]:
                 out += [f"{c}_{t}", f"{c}_{t}_1", f"{c}_{t}_2"]
+            # names that look like the labels the SQL back end gives to same-named columns in a sub-query
+            out += [f"{c}_1", f"{c}_2"]
         return out
 
     def g_rename(self):
@@ -749,6 +751,67 @@ class Generator:
         m.note("join_chain_scenario")
         return narrow(a)
 
+    def g_hidden_const_join_scenario(self):
+        """a literal column is added to a single-source table, a reference to it is taken, the
+        column is hidden, and the table becomes the RIGHT side of a left / full join (or the left
+        side of a full join): through the reference the literal is null on the padded rows"""
+        m = self.m
+        rng = self.rng
+        if not m.cfg.get("hold_refs", True) or len(m.refs) + 1 > self.p.get("max_refs", 24):
+            return None
+
+        def single(p):
+            return not p.m.grouping and p.m.rowid and not (p.m.n_join or p.m.n_union or p.m.n_summarize or p.m.n_limit) and len(p.m.visible) >= 2 and (p.nrows or 12) <= 40
+
+        r = self.pick_table(single)
+        if r is None:
+            return None
+        l = self.pick_table(lambda p: p.id != r.id and not p.m.grouping and not (p.m.origins & r.m.origins) and not (set(p.m.scope) & set(r.m.scope)) and set(p.real) & set(r.real) and len(p.m.visible) + len(r.m.visible) <= 24 and (p.nrows or 12) <= 40)
+        if l is None:
+            return self.g_src()
+        name = self.fresh_name()
+        st = {"r": f"t{self.cur_i}"}
+
+        def take_ref(i):
+            if st["r"] not in m.tables:
+                self.plan.clear()
+                return None
+            st["ref"] = f"r{i}"
+            return {"op": "ref", "t": st["r"], "how": "item", "name": name}
+
+        def hide(i):
+            if st.get("ref") not in m.refs or st["r"] not in m.tables:
+                self.plan.clear()
+                return None
+            st["r2"] = f"t{i}"
+            return {"op": "drop", "t": st["r"], "cols": [{"c": name}]}
+
+        def do_join(i):
+            r2, l2 = m.tables.get(st.get("r2")), m.tables.get(l.id)
+            if r2 is None or l2 is None:
+                self.plan.clear()
+                return None
+            how = rng.choice(["left", "left", "full"])
+            swap = how == "full" and rng.random() < 0.3
+            a, b = (r2, l2) if swap else (l2, r2)
+            on = self.eq_on(a, b)
+            if on is None:
+                self.plan.clear()
+                return None
+            st["j"] = f"t{i}"
+            m.note("hidden_const_join:" + how)
+            return {"op": "join", "l": a.id, "r": b.id, "on": on, "how": how}
+
+        def use(i):
+            j = m.tables.get(st.get("j"))
+            if j is None or st["ref"] not in m.refs:
+                return None
+            m.note("hidden_const_used_after_join")
+            return {"op": "mutate", "t": j.id, "cols": [[self.fresh_name(), {"e": "ref", "a": {"r": st["ref"]}}]]}
+
+        self.plan = [take_ref, hide, do_join, use]
+        return {"op": "mutate", "t": r.id, "cols": [[name, {"e": "lit", "v": rng.randrange(100, 999)}]]}
+
     def g_mutate_w(self):
         st = self.g_mutate(window=True)
         return st
@@ -888,7 +951,24 @@ class Generator:
             preds = [p for p in (self.g_pred(p2),) if p]
             return {"op": "filter", "t": p2.id, "preds": preds} if preds else None
 
-        self.plan = [ow, ref_again, ow, order, cut, touch]
+        def label_like(i):
+            # another column is called like the label the SQL back end gives to the second of two
+            # same-named columns inside a sub-query (`<name>_1`)
+            st["cur"] = st["cur_next"]
+            p2 = m.tables.get(st["cur"])
+            if p2 is None:
+                self.plan.clear()
+                return None
+            others = [n for n in p2.m.names() if n != name and p2.m.tok_of_name(n) not in (p2.m.rowid or ())]
+            lab = f"{name}_{self.rng.choice([1, 1, 2])}"
+            if not others or lab in p2.m.names() or self.rng.random() < 0.5:
+                st["cur_next"] = st["cur"]
+                return None
+            st["cur_next"] = f"t{i}"
+            m.note("label_like_column_name")
+            return {"op": "rename", "t": p2.id, "map": [[{"c": self.rng.choice(others)}, lab]]}
+
+        self.plan = [ow, ref_again, ow, label_like, order, cut, touch]
         return {"op": "ref", "t": pt.id, "how": "attr", "name": name}
 
     def g_filter_empty(self):
